@@ -44,6 +44,36 @@ CASES = [
   ('sum_rect: min/max nesting exchanged (equal for N0 >= 1)', 'mahotas/features/_surf.cpp', ('y0 = std::min<int>(std::max<int>(y0-1, 0), N0 - 1);', 'y0 = std::max<int>(std::min<int>(y0-1, N0 - 1), 0);'), 'Surf', 'pass'),
   ('haar_x: window width w -> w - 1 on the right half', 'mahotas/features/_surf.cpp', ('const double right = sum_rect(integral, y - w/2,        x, (y - w/2) + w, (x - w/2) + w);', 'const double right = sum_rect(integral, y - w/2,        x, (y - w/2) + w, (x - w/2) + w - 1);'), 'Surf', 'break'),
   ('roll_right: points-1 -> points', 'mahotas/features/_lbp.cpp', ('return (v >> 1) | ((v & 1) << (points-1));', 'return (v >> 1) | ((v & 1) << (points));'), 'Lbp', 'break'),
+  ('dilate_add: b >= 0 test dropped (the pre-repair behaviour on negative heights)', 'mahotas/_morph.cpp', ('if (b >= 0 && r < a) return', 'if (r < a) return'), 'DilateAdd', 'break'),
+  ('dilate_add: b >= 0 -> b > 0', 'mahotas/_morph.cpp', ('if (b >= 0 && r < a) return', 'if (b > 0 && r < a) return'), 'DilateAdd', 'break'),   # equal for values of the dtype (r = a when b = 0); the tie holds for ALL integers a: conservative
+  ('find2d: y + Nt0 <= N0 -> y + Nt0 < N0 (last row of corners lost: the defect repaired in round 1)', 'mahotas/_convolve.cpp', ('y < N0 && y + Nt0 <= N0;', 'y < N0 && y + Nt0 < N0;'), 'Find2d', 'break'),
+  ('find2d: x + Nt1 <= N1 dropped (reads past the right edge)', 'mahotas/_convolve.cpp', ('x < N1 && x + Nt1 <= N1;', 'x < N1;'), 'Find2dAcc', 'break'),
+  ('find2d: x + Nt1 <= N1 dropped (marks corners where the template does not fit)', 'mahotas/_convolve.cpp', ('x < N1 && x + Nt1 <= N1;', 'x < N1;'), 'Find2d', 'break'),
+  ('find2d: sy < Nt0 -> sy < Nt0 - 1 (last template row never compared)', 'mahotas/_convolve.cpp', ('for (npy_intp sy = 0; sy < Nt0; ++sy) {', 'for (npy_intp sy = 0; sy < Nt0 - 1; ++sy) {'), 'Find2d', 'break'),
+  ('find2d: array.at(y + sy, x + sx) -> array.at(y + sy, x) (column offset lost)', 'mahotas/_convolve.cpp', ('array.at(y + sy,x + sx) != target.at(sy,sx)', 'array.at(y + sy,x) != target.at(sy,sx)'), 'Find2d', 'break'),
+  ('find2d: goto replaced by nothing (every fitting corner marked)', 'mahotas/_convolve.cpp', ('                        goto next_pos;\n', '                        ;\n'), 'Find2d', 'untranslatable'),   # find2d_accesses: a statement under an element comparison that is not a jump
+  ('find2d: conjuncts of the loop conditions exchanged, != for < on the simple bound', 'mahotas/_convolve.cpp', ('for (npy_intp y = 0; y < N0 && y + Nt0 <= N0; ++y) {', 'for (npy_intp y = 0; y + Nt0 <= N0 && y != N0; ++y) {'), 'Find2d', 'pass'),
+  ('find2d: out.at(y, x) -> out.at(x, y)', 'mahotas/_convolve.cpp', ('out.at(y, x) = true;', 'out.at(x, y) = true;'), 'Find2d', 'break'),
+  ('find2d: `continue` instead of goto (only the innermost loop is left)', 'mahotas/_convolve.cpp', ('                        goto next_pos;\n', '                        continue;\n'), 'Find2d', 'break'),
+  ('spline order 3: (y - 2.0) * 3.0 -> 3.0 * (y - 2.0) (same real value, different rounding sequence)', 'mahotas/_interpolate.cpp', ('(y * y * (y - 2.0) * 3.0 + 4.0) / 6.0;', '(3.0 * (y - 2.0) * y * y + 4.0) / 6.0;'), 'Spline', 'break'),
+  ('spline order 4: constant 0.625 -> 0.0625', 'mahotas/_interpolate.cpp', ('y * (y * 0.25 - 0.625) + 115.0 / 192.0;', 'y * (y * 0.25 - 0.0625) + 115.0 / 192.0;'), 'Spline', 'break'),
+  ('spline order 2: threshold y < 1.5 -> y < 2.5', 'mahotas/_interpolate.cpp', ('            } else if (y < 1.5) {\n                y = 1.5 - y;\n                result[hh] = 0.5 * y * y;', '            } else if (y < 2.5) {\n                y = 1.5 - y;\n                result[hh] = 0.5 * y * y;'), 'Spline', 'break'),
+  ('spline order 5: local f renamed, 0.55 written 11.0 / 20.0', 'mahotas/_interpolate.cpp', ('                const FT f = y * y;\n                result[hh] = f * (f * (0.25 - y / 12.0) - 0.5) + 0.55;', '                const FT ysq = y * y;\n                result[hh] = ysq * (ysq * (0.25 - y / 12.0) - 0.5) + 11.0 / 20.0;'), 'Spline', 'pass'),
+  ('currank: n * rank/double(N2) -> n * (rank/double(N2)) (product no longer exact)', 'mahotas/_convolve.cpp', ('currank = npy_intp(n * rank/double(N2));', 'currank = npy_intp(n * (rank/double(N2)));'), 'CurRank', 'untranslatable'),   # `n * <floating>`: the generated text needs a multiplication the configured arithmetic does not have -> does not type-check -> reported like an untranslatable block
+  ('currank: n != N2 -> n < N2 (same for n <= N2; the tie is for all n)', 'mahotas/_convolve.cpp', ('if (n != N2) {\n            currank', 'if (n < N2) {\n            currank'), 'CurRank', 'break'),
+  ('dt: / 2. / (q-v[k]) -> / (2. * (q-v[k])) (same rational, other rounding: the tie at Rat passes)', 'mahotas/_distance.cpp', ('/ 2./ (q-v[k]);', '/ (2. * (q-v[k]));'), 'DtIntersect', 'pass'),
+  ('dt: square(BaseType(q)) -> BaseType(q)', 'mahotas/_distance.cpp', ('(f[q*stride] + square(BaseType(q)))', '(f[q*stride] + BaseType(q))'), 'DtIntersect', 'break'),
+  ('fast positions: dx < -Nx clamp dropped', 'mahotas/_morph.cpp', ('            if (dx < -Nx) dx = -Nx;\n', ''), 'FastPositions', 'break'),
+  ('fast positions: dx > Nx -> dx >= Nx (equivalent)', 'mahotas/_morph.cpp', ('if (dx > Nx) dx = Nx;', 'if (dx >= Nx) dx = Nx;'), 'FastPositions', 'pass'),
+  ('fast positions: Cy = By/2 -> (By-1)/2 (centre of an even element moves)', 'mahotas/_morph.cpp', ('const numpy::index_type Cy = By/2;', 'const numpy::index_type Cy = (By-1)/2;'), 'FastPositions', 'break'),
+  ('fast positions: continue replaced by an if around the rest', 'mahotas/_morph.cpp', ('            if (!Bc.at(y,x)) continue;\n            const numpy::index_type dy = y-Cy;\n            numpy::index_type dx = x-Cx;\n            // offsets reaching beyond the image read the replicated edge (dy is clamped per row below)\n            if (dx > Nx) dx = Nx;\n            if (dx < -Nx) dx = -Nx;\n            if (dy || dx) {\n                positions.push_back(dy);\n                positions.push_back(dx);\n            }\n', '            if (Bc.at(y,x)) {\n            const numpy::index_type dy = y-Cy;\n            numpy::index_type dx = x-Cx;\n            if (dx > Nx) dx = Nx;\n            if (dx < -Nx) dx = -Nx;\n            if (dy || dx) {\n                positions.push_back(dy);\n                positions.push_back(dx);\n            }\n            }\n'), 'FastPositions', 'pass'),
+  ('find: compression loop stops one node early (data[i] != root -> data[data[i]] != root): same buffer', 'mahotas/_labeled.cpp', ('while (data[i] != root) {', 'while (data[i] != root && data[data[i]] != root) {'), 'UnionFind', 'break'),
+  ('find: path halving instead of full compression (data[i] = root -> data[i] = data[next])', 'mahotas/_labeled.cpp', ('        data[i] = root;\n        i = next;', '        data[i] = data[next];\n        i = next;'), 'UnionFind', 'break'),
+  ('join: data[i] = j -> data[j] = i (union direction)', 'mahotas/_labeled.cpp', ('    assert(j >= 0);\n    data[i] = j;', '    assert(j >= 0);\n    data[j] = i;'), 'UnionFind', 'break'),
+  ('join: second find on the original j moved first', 'mahotas/_labeled.cpp', ('    i = find(data, i);\n    j = find(data, j);', '    j = find(data, j);\n    i = find(data, i);'), 'UnionFind', 'break'),
+  ('fast path row clamp: (y + dy) >= Ny -> (y + dy) > Ny (row Ny read)', 'mahotas/_morph.cpp', ('if ((y + dy) >= Ny) {', 'if ((y + dy) > Ny) {'), 'FastRow', 'break'),
+  ('fast path row clamp: dy = -y+(Ny-1) -> dy = Ny-1-y (same value)', 'mahotas/_morph.cpp', ('dy = -y+(Ny-1);', 'dy = Ny-1-y;'), 'FastRow', 'pass'),
+  ('fast path: n = Nx - t_abs(dx) -> Nx - dx (wrong for dx < 0)', 'mahotas/_morph.cpp', ('numpy::index_type n = Nx - t_abs(dx);', 'numpy::index_type n = Nx - dx;'), 'FastRow', 'break'),
   ('lbp map: v < min -> v <= min (equivalent)', 'mahotas/features/_lbp.cpp', ('if (v < min) min = v;', 'if (v <= min) min = v;'), 'Lbp', 'pass'),
 ]
 only = sys.argv[1:] 
